@@ -32,11 +32,13 @@ def init_all(func: Callable) -> None:
 
 
 def get_contracts(func: Callable) -> Iterator[Contract]:
+    seen: set[int] = set()
     while True:
         if isinstance(func, Inherit):
             func = func._patch()
         contracts = getattr(func, ATTR, None)
-        if isinstance(contracts, Contracts):
+        if isinstance(contracts, Contracts) and id(contracts) not in seen:
+            seen.add(id(contracts))
             for validator in contracts.pres:
                 yield _wrappers.Pre(validator)
             for validator in contracts.posts:
